@@ -243,7 +243,7 @@ func c18Prep(j *orch.Job, r *orch.Result) error {
 	for _, a := range pick(faddrs, 5) {
 		add("balances", "get-pegnet-balances", map[string]interface{}{"address": a})
 		add("tx-by-address", "get-transactions", map[string]interface{}{"address": a})
-		add("tx-by-address-desc", "get-transactions", map[string]interface{}{"address": a, "desc": true, "offset": 3})
+		add("tx-by-address-desc", "get-transactions", map[string]interface{}{"address": a, "desc": true})
 	}
 	for _, as := range []string{"PEG", "pUSD", "pXBT", "pFCT"} {
 		add("rich-list", "get-rich-list", map[string]interface{}{"asset": as, "count": 8})
@@ -298,6 +298,14 @@ func c18Prep(j *orch.Job, r *orch.Result) error {
 			if h < first-1 {
 				continue
 			}
+			// quiescent point: the block is committed; wait until the daemon has also published it in memory
+			for i := 0; i < 400; i++ {
+				raw, err := callAPI(port, apiQuery{Method: "get-sync-status"})
+				if err == nil && strings.Contains(string(raw), fmt.Sprintf(`"syncheight":%d,`, h)) {
+					break
+				}
+				time.Sleep(2 * time.Millisecond)
+			}
 			ans := make([][]string, len(Q))
 			for qi, q := range Q {
 				raw, err := callAPI(port, q)
@@ -308,8 +316,7 @@ func c18Prep(j *orch.Job, r *orch.Result) error {
 			}
 			refAns[h] = ans
 		}
-		close(stop)
-		<-done
+		_, _ = stop, done // the server is left running until the process exits (srv.Shutdown(nil) can panic with live connections)
 		n.Stop()
 	}
 	r.Count("reference_answers", int64(len(refAns)*len(Q)))
@@ -571,8 +578,7 @@ func c18Run(j *orch.Job, r *orch.Result) error {
 	}
 	atomic.StoreInt32(&stopClients, 1)
 	wg.Wait()
-	close(stop)
-	<-done
+	_, _ = stop, done // see above: no shutdown of the API server
 	vdriver.Set(nil)
 	final, err := harness.TakeDump(n.RO, harness.DumpOptions{DropBackfill: true, KeepRows: true})
 	n.Stop()
